@@ -726,3 +726,61 @@ def g3_mixed(nkeys=20, keylen=300, every=3, one_tx=True, maxlen=7, seed=0):
             h.emit("drop %d" % r)
             out.append(("g3mixed n=%d kl=%d every=%d one_tx=%s del=[%d,%d)" % (nkeys, keylen, every, one_tx, lo, hi), h.text()))
     return out
+
+
+def g10(seed, workload, ntx=300, pin=(100, 150), reopen_every=0):
+    """C10: long runs whose live data stays bounded. workload in fixed1 (single-page fixed-size overwrites),
+    fixedN (multi-page fixed-size values: freed runs are exactly reusable), var (variable sizes, inserts and
+    deletes over a bounded key set), bdel (nested bucket created, filled, deleted). A reader is held open
+    during [pin[0], pin[1]) and re-dumped when it closes."""
+    rng = random.Random(seed)
+    h = H()
+    keys = [hx("k%03d" % i) for i in range(40)]
+    t = h.begin(True)
+    b = h.bucket("create", t, 0, hx("b"))
+    for k in keys:
+        h.emit("put %d %d %s %s" % (t, b, k, {"fixed1": "r100:1", "fixedN": "r2500:1", "var": "r300:1", "bdel": "r100:1"}[workload]))
+    h.emit("commit %d" % t)
+    h.emit("snap")
+    reader = None
+    for i in range(ntx):
+        if pin and i == pin[0]:
+            reader = h.begin(False)
+        if pin and i == pin[1] and reader is not None:
+            h.emit("dump %d" % reader)
+            h.emit("drop %d" % reader)
+            reader = None
+        t = h.begin(True)
+        b = h.bucket("getb", t, 0, hx("b"))
+        if workload == "fixed1":
+            for _ in range(5):
+                h.emit("put %d %d %s r100:%d" % (t, b, rng.choice(keys), rng.randrange(256)))
+        elif workload == "fixedN":
+            for _ in range(3):
+                h.emit("put %d %d %s r2500:%d" % (t, b, rng.choice(keys), rng.randrange(256)))
+        elif workload == "var":
+            for _ in range(6):
+                k = rng.choice(keys)
+                if rng.random() < 0.3:
+                    h.emit("del %d %d %s" % (t, b, k))
+                else:
+                    h.emit("put %d %d %s %s" % (t, b, k, rval(rng, [0, 16, 100, 300, 700, 1500, 3000])))
+        else:
+            if i % 2 == 0:
+                s = h.bucket("create", t, b, hx("tmp"))
+                for j in range(20):
+                    h.emit("put %d %d %s r100:%d" % (t, s, hx("t%02d" % j), j))
+            else:
+                h.emit("delb %d %d %s" % (t, b, hx("tmp")))
+            h.emit("put %d %d %s r100:%d" % (t, b, rng.choice(keys), rng.randrange(256)))
+        h.emit("commit %d" % t)
+        h.emit("snap")
+        if reopen_every and (i + 1) % reopen_every == 0 and reader is None:
+            h.emit("reopen")
+    if reader is not None:
+        h.emit("drop %d" % reader)
+    r = h.begin(False)
+    h.emit("dump %d" % r)
+    h.emit("drop %d" % r)
+    h.emit("check")
+    return h.text()
